@@ -55,8 +55,24 @@ def descend_opens(ctx):
     out = []
     for fn in ("root::RootRef::<'_>::mkdir_all", "utils::dir::remove_all"):
         b = F.body(fn)
-        for t in b.calls("syscalls::openat"):
+        for t in b.calls("syscalls::openat", "syscalls::openat_follow", "rustix::fs::openat", "syscalls::openat2"):
             out.append(("%s:openat" % fn_key(b), t))
+    return out
+
+
+def r5_descend_nofollow(ctx):
+    """Descend opens go through the O_NOFOLLOW-forcing wrapper and ask for O_DIRECTORY."""
+    ipa, pp = shared(ctx)
+    out = []
+    for key, t in descend_opens(ctx):
+        bits = ipa.bits_of(t.body.path)
+        v = bits.arg_value(t, 2) if bits and t.callee.startswith("syscalls::openat") and t.callee != "syscalls::openat2" else None
+        if t.callee != "syscalls::openat":
+            out.append(violated("C03.R5", key, t.where(), "descend open bypasses the O_NOFOLLOW-forcing wrapper (%s): a directory swapped for a symlink would be followed out of the tree" % t.callee))
+        elif v is None or not v.has(O_DIRECTORY):
+            out.append(violated("C03.R5", key, t.where(), "descend open without O_DIRECTORY: %r" % v))
+        else:
+            out.append(holds("C03.R5", key, t.where(), "O_DIRECTORY open through syscalls::openat (O_NOFOLLOW forced)"))
     return out
 
 
@@ -65,7 +81,7 @@ def r1_dirfd(ctx):
     out = []
     from .c05 import PATHARGS
     for key, t in mutating_sites(ctx) + descend_opens(ctx):
-        w = t.callee.split("::")[1]
+        w = t.callee.split("::")[1] if t.callee.startswith("syscalls::") else "openat"
         for (di, _pi) in PATHARGS[w]:
             fdc = pp.classify_fd_arg(t, di)
             cls = _cls(fdc)
@@ -84,7 +100,7 @@ def r2_name(ctx):
     out = []
     from .c05 import PATHARGS
     for key, t in mutating_sites(ctx) + descend_opens(ctx):
-        w = t.callee.split("::")[1]
+        w = t.callee.split("::")[1] if t.callee.startswith("syscalls::") else "openat"
         for (_di, pi) in PATHARGS[w]:
             pc = pp.classify_path_arg(t, pi)
             cls = _cls(pc)
@@ -159,4 +175,5 @@ RULES = [
     ("C03.R2", r2_name, 15, False),
     ("C03.R3", r3_dot_dotdot, 2, False),
     ("C03.R4", r4_who_may_mutate, 14, False),
+    ("C03.R5", r5_descend_nofollow, 2, False),
 ]
